@@ -25,6 +25,10 @@ LIB = {
               'out': 'v', 'defaults': {'v': 1.0, 'w': 0.0, 'k': 4.0, 'c': 0.3}},
     'leak':  {'eqs': ["x' = -a*x + b*u"], 'state': ['x'], 'const': ['a', 'b'], 'in': 'u', 'out': 'x',
               'defaults': {'x': 0.5, 'a': 2.0, 'b': 1.0}},
+    # the lin operator with long identifiers (code generation orders some things by name / name length)
+    'linl':  {'eqs': ["membrane_x' = -decay_rate_a*membrane_x + input_drive_ext"], 'state': ['membrane_x'],
+              'const': ['decay_rate_a'], 'in': 'input_drive_ext', 'out': 'membrane_x',
+              'defaults': {'membrane_x': 0.5, 'decay_rate_a': 2.0}},
     # delayed self-coupling in both notations (one delayed term per operator: forms with two are refused loudly today)
     'dd':    {'eqs': ["x' = -a*past(x, tau) + c*x + u"], 'state': ['x'], 'const': ['a', 'c', 'tau'], 'in': 'u', 'out': 'x',
               'defaults': {'x': 1.0, 'a': 2.0, 'c': 0.25, 'tau': 0.05}, 'dde': True},
@@ -68,6 +72,8 @@ def ref_rhs(lib, p, s, u, past=None):
         return {'x': -p['a'] * past('x', p['tau']) + p['c'] * s['x'] + u}
     if lib == 'lin':
         return {'x': -p['a'] * s['x'] + u}
+    if lib == 'linl':
+        return {'membrane_x': -p['decay_rate_a'] * s['membrane_x'] + u}
     if lib == 'sat':
         return {'x': (-s['x'] + math.tanh(p['g'] * u + p['b'])) / p['tau']}
     if lib == 'integ':
@@ -85,6 +91,8 @@ def recover_input(lib, p, s, r):
     """invert ref_rhs for the summed input u given the derivative dict r (exact for lin/integ/osc/leak)"""
     if lib == 'lin':
         return r['x'] + p['a'] * s['x']
+    if lib == 'linl':
+        return r['membrane_x'] + p['decay_rate_a'] * s['membrane_x']
     if lib == 'integ':
         return r['x']
     if lib == 'osc':
@@ -229,7 +237,7 @@ def _grid(rng, lo, hi, q):
     return rng.randint(int(lo * q), int(hi * q)) / q
 
 
-def gen_net(rng, n_nodes=None, libs=('lin', 'sat', 'osc', 'leak', 'integ'), max_edges=6, uniq='',
+def gen_net(rng, n_nodes=None, libs=('lin', 'sat', 'osc', 'leak', 'integ', 'linl'), max_edges=6, uniq='',
             hier=False, build=None, delays=None, own_nt=True, stable=True, per_node_ops=False):
     """flat (or two-level) circuit; every node has its own parameter values and every state variable a distinct
     initial value, so that positions and trajectories are attributable by value.
@@ -253,7 +261,7 @@ def gen_net(rng, n_nodes=None, libs=('lin', 'sat', 'osc', 'leak', 'integ'), max_
         for c in LIB[k]['const']:
             if c == 'wmid':
                 continue   # array constant: lives in the operator's own defaults
-            if c in ('a', 'k', 'c', 'tau'):
+            if c in ('a', 'k', 'c', 'tau', 'decay_rate_a'):
                 var[c] = _grid(rng, 0.25, 3.0, 16)
             else:
                 var[c] = _grid(rng, -2.0, 2.0, 16) or 0.5
